@@ -318,4 +318,134 @@ theorem paragraph_lines (hlead : lead (Ls[0]'(List.length_pos_iff.mpr hon.ne)) =
 
 end rules
 
+/-- `parseBlocks_single` with the chain's answer asked only at budgets `f ≥ #lines`, `f ≥ 1` (the run has
+    `fuelFor cfg src = f + 1` with `f = #lines + min max_nesting |src| + 7`): a rule that scans several lines burns
+    one unit per line, and `testRules cfg 0` is out of fuel -/
+theorem parseBlocks_single_fuel {cfg : Cfg} {src : List Char} {s' : BState} {i : Int}
+    (hmn : 0 < cfg.maxNesting)
+    (hlt : 0 < (BState.fresh src .root []).lineMax)
+    (hne : (BState.fresh src .root []).isEmpty 0 = false)
+    (hind : (BState.fresh src .root []).lineIndent 0 = .ok i) (hi : 0 ≤ i)
+    (hchain : ∀ f, (Lines.splitLines src).length ≤ f → 1 ≤ f →
+      runChain (ruleAt cfg f) cfg.chain (BState.fresh src .root []) false = .ok (true, s'))
+    (hprog : 0 < s'.line) (hend : s'.line = s'.lineMax) (hk : s'.nodeKind = .root) :
+    parseBlocks cfg src = .ok (⟨.root, some (0, Lines.byteLen src), s'.children⟩, s'.refs) := by
+  obtain ⟨f, hf⟩ : ∃ f, fuelFor cfg src = f + 2 :=
+    ⟨(Lines.splitLines src).length + min cfg.maxNesting (Lines.byteLen src) + 6, by unfold fuelFor; omega⟩
+  have hf1 : (Lines.splitLines src).length ≤ f := by unfold fuelFor at hf; omega
+  have hf2 : 1 ≤ f := by unfold fuelFor at hf; omega
+  unfold parseBlocks
+  rw [hf, tokenize_succ,
+    tokLoop_single (cfg := cfg) f false (s := BState.fresh src .root []) hlt hne hind hi hmn
+      (hchain (f + 1) (by omega) (by omega)) hprog hend]
+  simp [hk]
+
+section lines
+variable {c : Char} {r : List Char} {Ls : List (List Char)}
+  (hnt : ∀ l ∈ (c :: r) :: Ls, NoTerm l) (hc : ParaFirst c) (hcont : ∀ l ∈ Ls, ContLine l)
+  {cfg : Cfg} {pre post : List RuleId} (hchain : cfg.chain = pre ++ .paragraph :: post)
+  (hpre : .paragraph ∉ pre) (hmn : 0 < cfg.maxNesting)
+
+theorem contLine_ne_nil {l : List Char} (h : ContLine l) : l ≠ [] := by
+  obtain ⟨c, r, hd, _⟩ := h
+  intro e
+  rw [e] at hd
+  cases hd
+
+include hnt hcont in
+/-- the fresh state over the lines -/
+theorem onDoc_lines (k : Kind) (refs : Refs.RefMap) :
+    OnDoc ((c :: r) :: Ls) (BState.fresh (docOf ((c :: r) :: Ls)) k refs) := by
+  refine OnDoc.fresh (by simp) hnt ?_ k refs
+  intro h
+  have hm := List.mem_of_getLast? h
+  rcases List.mem_cons.mp hm with e | hm'
+  · cases e
+  · exact contLine_ne_nil (hcont _ hm') rfl
+
+include hcont in
+theorem cont_index : ∀ j (h : j < ((c :: r) :: Ls).length), 0 < j → ContLine (((c :: r) :: Ls)[j]) := by
+  intro j hj hj0
+  obtain ⟨j', rfl⟩ : ∃ j', j = j' + 1 := ⟨j - 1, by omega⟩
+  simp only [List.getElem_cons_succ]
+  exact hcont _ (List.getElem_mem _)
+
+include hnt hc hcont hchain hpre
+
+theorem lines_facts :
+    0 < (BState.fresh (docOf ((c :: r) :: Ls)) .root []).lineMax ∧
+    (BState.fresh (docOf ((c :: r) :: Ls)) .root []).isEmpty 0 = false ∧
+    (BState.fresh (docOf ((c :: r) :: Ls)) .root []).lineIndent 0 = .ok 0 ∧
+    (BState.fresh (docOf ((c :: r) :: Ls)) .root []).lineMax = Ls.length + 1 ∧
+    ∀ f, ((c :: r) :: Ls).length ≤ f → 1 ≤ f →
+      runChain (ruleAt cfg f) cfg.chain (BState.fresh (docOf ((c :: r) :: Ls)) .root []) false =
+      .ok (true, { (BState.fresh (docOf ((c :: r) :: Ls)) .root []) with
+        line := Ls.length + 1,
+        children := [⟨.paragraph, some (0, Lines.byteLen (docOf ((c :: r) :: Ls))),
+          [⟨.inlineRoot (docOf ((c :: r) :: Ls)) (idTable 0 ((c :: r) :: Ls)), none, []⟩]⟩] }) := by
+  have hon := onDoc_lines hnt hcont .root []
+  obtain ⟨s, hs⟩ : ∃ s, s = BState.fresh (docOf ((c :: r) :: Ls)) .root [] := ⟨_, rfl⟩
+  rw [← hs] at hon ⊢
+  have h0 : 0 < ((c :: r) :: Ls).length := by simp
+  have hld := lead_nonblank_cons r hc.notBlank
+  have hlen := hon.length
+  have hmax : s.lineMax = ((c :: r) :: Ls).length := by rw [hs] at hlen ⊢; exact hlen
+  have hline : s.line = 0 := by rw [hs]; rfl
+  have hlist : s.listIndent = none := by rw [hs]; rfl
+  have hci := cont_index (c := c) (r := r) hcont
+  have hli : s.lineIndent 0 = .ok 0 := by
+    have := hon.lineIndent h0
+    simpa [hld.1, Lines.indentWidth, Lines.widthFrom] using this
+  have hgl : s.getLine 0 = .ok (c :: r) := by
+    have := hon.getLine h0
+    simpa [hld.2] using this
+  refine ⟨by omega, ?_, hli, by simpa using hmax, ?_⟩
+  · rw [hon.isEmpty h0]; simp [hld.2]
+  · intro f hf hf1
+    obtain ⟨g, rfl⟩ : ∃ g, f = g + 1 := ⟨f - 1, by omega⟩
+    have htest := testRules_quiet hon hlist hci cfg g
+    rw [hchain]
+    refine runChain_reach (fun q hq => ?_) ?_
+    · by_cases hq' : q = .lheading
+      · subst hq'
+        exact lheading_lines hon hmax hline hci htest (by omega) hli
+      · exact quiet_real (fun e => hpre (e ▸ hq)) hq' (by rw [hline]; exact hli) (by rw [hline]; exact hgl) hc hlist
+    · have := paragraph_lines hon hmax hline hci htest (fuel := g + 1 + 1) (by omega) (by simpa using hld.1)
+      show paragraphRule (testRules cfg (g + 1)) (g + 1 + 1) s false = _
+      rw [this, hs]
+      rfl
+
+include hmn
+
+/-- **the block pass on an n-line top-level paragraph**: `Root[Paragraph[InlineRoot src (idTable 0 lines)]]`, both
+    nodes over the whole source, no reference -/
+theorem parseBlocks_lines :
+    parseBlocks cfg (docOf ((c :: r) :: Ls)) =
+      .ok (⟨.root, some (0, Lines.byteLen (docOf ((c :: r) :: Ls))),
+            [⟨.paragraph, some (0, Lines.byteLen (docOf ((c :: r) :: Ls))),
+              [⟨.inlineRoot (docOf ((c :: r) :: Ls)) (idTable 0 ((c :: r) :: Ls)), none, []⟩]⟩]⟩, []) := by
+  obtain ⟨h1, h2, h3, h4, h5⟩ := lines_facts hnt hc hcont hchain hpre
+  have hlen : (Lines.splitLines (docOf ((c :: r) :: Ls))).length = ((c :: r) :: Ls).length :=
+    (onDoc_lines hnt hcont .root []).length
+  exact parseBlocks_single_fuel hmn h1 h2 h3 (by omega)
+    (fun f hf hf1 => h5 f (by rw [← hlen]; exact hf) hf1) (by simp) h4.symm rfl
+
+end lines
+
+section examples
+/-- the hypotheses are satisfiable (`"a `` x\n   y ``\n=b\n\t- z"`: a continuation line at indent 3, one that starts with
+    `=` but is no underline, one indented by a tab), on a chain with `lheading` in front of `paragraph` -/
+example : parseBlocks ⟨100, [.code, .list, .lheading, .paragraph, .hr], fun _ => none, fun c => [c], fun c => [c]⟩
+    (docOf ["a `` x".toList, "   y ``".toList, "=b".toList, "\t- z".toList]) =
+    .ok (⟨.root, some (0, 22), [⟨.paragraph, some (0, 22),
+      [⟨.inlineRoot "a `` x\n   y ``\n=b\n\t- z".toList [(0, 0), (7, 7), (15, 15), (18, 18)], none, []⟩]⟩]⟩, []) :=
+  parseBlocks_lines (c := 'a') (r := " `` x".toList) (Ls := ["   y ``".toList, "=b".toList, "\t- z".toList])
+    (pre := [.code, .list, .lheading]) (post := [.hr])
+    (by decide) (by decide) (by decide) rfl (by decide) (by decide)
+
+/-- `ContLine` is needed: a setext underline, a list item, a blank line end the paragraph (or change its kind) -/
+example : ¬ ContLine "=".toList ∧ ¬ ContLine "- y".toList ∧ ¬ ContLine " ".toList ∧ ContLine "    - y".toList := by
+  decide
+end examples
+
 end MdIt.Block
